@@ -148,6 +148,13 @@ func genTurn(r *term.Rng, idx int) term.T {
 		}
 		ops = append(ops, term.C("OAdd", term.L(ids...)))
 	}
+	// tie mode: speeds and gauge targets from tiny pools whose quotients coincide exactly
+	// (5000/100 = 6000/120 = 4500/90, 10000/100 = 12000/120 = 9000/90), with speed changes in between, so that
+	// a set / advance / delay lands on an exact action-value tie while the stored order is stale
+	tieMode := r.Chance(1, 4)
+	if tieMode {
+		speedPool = []float64{100, 120, 90, 100}
+	}
 	addSome(nu)
 	pick := func() int64 {
 		if len(members) == 0 || r.Chance(1, 25) {
@@ -156,6 +163,9 @@ func genTurn(r *term.Rng, idx int) term.T {
 		return term.Pick(r, members)
 	}
 	amounts := func() float64 {
+		if tieMode && r.Chance(3, 4) {
+			return term.Pick(r, []float64{10000, 5000, 6000, 4500, 9000, 12000, 0, 2500, 3000, 2250})
+		}
 		switch r.Intn(8) {
 		case 0:
 			return 0
@@ -176,7 +186,11 @@ func genTurn(r *term.Rng, idx int) term.T {
 	costs := []float64{1, 0.5, 0.75, 1.5, 2, 0, 0.1, -0.5}
 	n := r.Range(5, 60)
 	for len(ops) < n {
-		switch k := r.Intn(20); {
+		k := r.Intn(20)
+		if tieMode && r.Chance(1, 3) {
+			k = term.Pick(r, []int{6, 7, 8, 16, 17}) // more SetGauge and SetSpeed
+		}
+		switch {
 		case k < 5:
 			if inTurn {
 				ops = append(ops, term.C("OReset"))
